@@ -83,6 +83,48 @@ def has_fields(projs, *names):
     return all(any(p == n or p == 'upvar:' + n for p in projs) for n in names)
 
 
+def rwlock_guard_rules(ctx, RULE):
+    """no tokio RwLock guard (registry tables, link / monitor sets) is alive across an await"""
+    from ..families import guard_flow, awaited_guard_start
+    P = ctx.P
+    ctx.rule(RULE, 'no guard of a tokio RwLock of the node (process table, name table, link and monitor sets) is alive at an await: a reader parked in a full mailbox would hold the table while every spawn, exit and '
+             '(writers are preferred) every later lookup queues behind it - with the process that should drain the mailbox among them; a rule about what must not be there (the LOCK family is exercised on the fixture every run)', floor=0)
+    n = 0
+    for k in sorted(ctx.F.bodies):
+        if 'edp_node::' not in k:
+            continue
+        XB = P.B(k)
+        if XB is None:
+            continue
+        ys = [i for i, blk in enumerate(XB.blocks) if blk['t']['k'] == 'yield' and i in XB.live_blocks()]
+        if not ys:
+            continue
+        polls = [(bb, t) for bb, t in XB.calls() if (callee_of(t)[0] or '').endswith('Future::poll')]
+        for pb, pt in polls:
+            o = XB.origin(pt['args'][0])
+            if not (o and o[0] == 'call' and 'RwLock' in str(o[1]) and (str(o[1]).endswith('::read') or str(o[1]).endswith('::write'))):
+                continue
+            st = awaited_guard_start(XB, pb)
+            if not st:
+                continue
+            sin, _bt = guard_flow(XB, pb, start=st[0], holders=[st[1]])
+            held = [y for y in ys if sin.get(y)]
+            if not held:
+                continue
+            n += 1
+            ps = [(qb, qt) for qb, qt in polls if XB.block_dominates(qb, held[0])]
+            fut = '?'
+            if ps:
+                qb, qt = max(ps, key=lambda x: x[0])
+                fo = XB.origin(qt['args'][0])
+                fut = str(fo[1]).rsplit('::', 2)[-2] + '::' + str(fo[1]).rsplit('::', 1)[-1] if fo and fo[0] == 'call' else '?'
+            base = k.split('::{')[0]
+            ctx.bad(RULE, '%s:%s' % (base.rsplit('::', 1)[-1], str(o[1]).rsplit('::', 1)[-1]), '%s holds the %s guard of an RwLock while it awaits %s: until that completes no writer (spawn, exit, register) and no later reader gets the table'
+                    % (base.rsplit('::', 1)[-1], str(o[1]).rsplit('::', 1)[-1], fut), ctx.where(XB, held[0]), key='LOCK:%s:rwlock-guard-across-await' % base)
+    if n == 0:
+        ctx.ok(RULE, 'edp_node', 'no RwLock guard is alive at an await')
+
+
 def run(ctx):
     P = ctx.P
     # ---------------- clause 2: by_name insertions only through a vacant entry --------------------
@@ -473,6 +515,8 @@ def run(ctx):
                         % (m_.group(1) if m_ else ''), ctx.where(GB, bb), key='ERR:edp_node::gen_event::GenEventManager::notify:propagates-handler-error')
     if n_hf == 0:
         ctx.ok('C18.5-handler-failure-contained', 'notify', 'no handler callback error is propagated out of notify')
+
+    rwlock_guard_rules(ctx, 'C18.4-table-guards-not-across-awaits')
 
 
 def _param_name(B, base, projs):
